@@ -100,7 +100,7 @@ def rule_res1(prog, E):
                     'kind:%s' % key,
                     'the CTL handler of %s returns %r, not a set built in '
                     'the call' % (key, v),
-                    expected='a set allocated during the call'))
+                    expected='a set allocated during the call'), witness=v)
     # LTL: the returned value is a set expression
     f = prog.func('LTL.model_checking.modelcheck')
 
@@ -147,7 +147,7 @@ def rule_res1(prog, E):
         else:
             r.fail(Finding(PROP, 'R-RES-1', f.where(), f.short(), 'kind:LTL',
                            'LTL.modelcheck returns %r, not a set built in '
-                           'the call' % (v,)))
+                           'the call' % (v,)), witness=v)
         if prov:
             r.ok()
         else:
@@ -156,7 +156,7 @@ def rule_res1(prog, E):
                 'the set returned by LTL.modelcheck is not derived from '
                 'kripke.states() by difference/intersection: it may contain '
                 'objects that are not states of K (%r)' % (
-                    I.snapshot(v, p),)))
+                    I.snapshot(v, p),)), witness=v)
     if nret == 0:
         raise Inconclusive('R-RES-1', 'no returning path of LTL.modelcheck',
                            f.where())
